@@ -802,6 +802,22 @@ class HGibbsRun:
                         break
         else:
             ctx.undecided("hybrid Gibbs sweeps observed %d, recorded %d" % (len(produced), W + total))
+        # burn-in / thinning of the joint record: states b, b+t, b+2t, ... of every block, in order
+        if W + total >= 2:
+            b_ = ctx.sched.randrange(0, W + total)
+            t_ = ctx.sched.choice([1, 2, 3, 4])
+            try:
+                bt = _joint_chain(g.get_samples().burnthin(b_, t_))
+            except Exception as e:
+                ctx.violate(PROP, "burnthin", self._sig(what="raised"), err=type(e).__name__)
+                bt = None
+            if bt is not None:
+                for k in sorted(got):
+                    want = got[k][:, b_::t_]
+                    if bt[k].shape != want.shape or not np.array_equal(bt[k], want, equal_nan=True):
+                        ctx.violate(PROP, "burnthin", self._sig(what="JointSamples"), var=k, Nb=b_, Nt=t_,
+                                    got=list(bt[k].shape), expected=list(want.shape))
+                        break
         for js, cps in snaps:
             for k, cp in cps.items():
                 now = _joint_chain(js)[k]
@@ -907,6 +923,96 @@ def gen_lgibbs_case(r, tier):
     return {"scenario": sc, "ops": ops}
 
 
+
+# =========================================================================== high-level interface (BayesianProblem)
+
+class ProblemRun:
+    """C14 through the interface most users take: BayesianProblem(...).sample_posterior(Ns, Nb, callback, experimental).
+    The returned chain has exactly Ns entries; the callback is called once per transition with consecutive indices, and the
+    entry k of the returned chain is the state the callback was handed at index Nb+k (Nb transitions are discarded, not
+    more, not fewer; Nb=None means 20% of Ns).  The direct sampler of small linear-Gaussian problems makes Ns independent
+    draws, calls back Ns times and ignores Nb."""
+
+    def __init__(self, ctx, case):
+        self.ctx, self.case, self.sc = ctx, case, case["scenario"]
+
+    def _sig(self, **k):
+        d = {"engine": "chain", "iface": "problem", "prior": self.sc["prior"], "model": self.sc["model"],
+             "experimental": bool(self.sc["experimental"]), "Nb": "None" if self.sc["Nb"] is None else ("0" if self.sc["Nb"] == 0 else "k")}
+        d.update(k)
+        return d
+
+    def run(self):
+        from cuqi.problem import BayesianProblem
+        from cuqi.distribution import Gaussian, GMRF, LMRF
+        from cuqi.model import LinearModel, Model
+        ctx, sc = self.ctx, self.sc
+        rs = np.random.RandomState(sc["zseed"])
+        n = sc["n"]
+        A = rs.randn(n + 1, n)
+        data = rs.randn(n + 1)
+        x = {"gauss": lambda: Gaussian(np.zeros(n), 0.8, name="x"), "gmrf": lambda: GMRF(np.zeros(n), 2.0, name="x"),
+             "lmrf": lambda: LMRF(0, 0.5, geometry=n, name="x")}[sc["prior"]]()
+        if sc["model"] == "lin":
+            M = LinearModel(A)
+        elif sc["model"] == "nonlin_grad":
+            M = Model(lambda x: np.tanh(A @ x), range_geometry=n + 1, domain_geometry=n,
+                      jacobian=lambda x: (1 - np.tanh(A @ x) ** 2)[:, None] * A)
+        else:
+            M = Model(lambda x: np.tanh(A @ x), range_geometry=n + 1, domain_geometry=n)
+        y = Gaussian(M(x), 0.5, name="y")
+        BP = BayesianProblem(y, x).set_data(y=data)
+        log = []
+
+        def cb(sample, index):
+            log.append((int(index), as_vec(sample).copy()))
+            ctx.log("callback", int(index), as_vec(sample))
+        Ns, Nb = int(sc["Ns"]), sc["Nb"]
+        try:
+            S = BP.sample_posterior(Ns, Nb, callback=cb, experimental=bool(sc["experimental"]))
+        except core.SimCrash:
+            raise
+        except Exception as e:
+            # the automatic choice does not serve every configuration (legacy NUTS refuses adaptation without burn-in, legacy
+            # pCN needs a Gaussian prior, legacy adaptation divides by zero for very short runs): availability is not C14
+            ctx.count("problem_run_not_served_" + type(e).__name__)
+            return
+        ctx.nontrivial = True
+        ctx.fault("sampler_chosen_automatically")
+        got = np.array(S.samples, float)
+        got = got.reshape(n, -1) if got.ndim == 1 else got
+        ctx.count("transitions", len(log))
+        if got.shape[1] != Ns:
+            ctx.violate(PROP, "length", self._sig(), got=int(got.shape[1]), expected=Ns)
+            return
+        idx = [i for i, _ in log]
+        if idx != list(range(idx[0], idx[0] + len(idx))) if idx else True:
+            ctx.violate(PROP, "callback_indices", self._sig(), got=idx[:12])
+            return
+        nb = int(0.2 * Ns) if Nb is None else int(Nb)
+        states = dict(log)
+        direct = idx and idx[0] == 0 and len(idx) == Ns and all(bit_equal(states[k], got[:, k]) for k in range(Ns))
+        if direct and (nb == 0 or sc["prior"] == "gauss" and sc["model"] == "lin"):
+            ctx.count("problem_run_ok")
+            return
+        # a chain: one callback per transition, indices end at Ns+Nb-1, Nb transitions discarded
+        if not idx or idx[-1] != Ns + nb - 1 or idx[0] not in (0, 1):
+            ctx.violate(PROP, "callback_indices", self._sig(), first=idx[:1], last=idx[-1:], expected_last=Ns + nb - 1, n=len(idx))
+            return
+        for k in range(Ns):
+            if nb + k in states and not bit_equal(states[nb + k], got[:, k]):
+                ctx.violate(PROP, "callback_state", self._sig(), index=nb + k, entry=k)
+                return
+        ctx.count("problem_run_ok")
+
+
+def gen_problem_case(r, tier):
+    prior = r.choice(["gauss", "gmrf", "lmrf"])
+    model = "lin" if prior == "lmrf" else r.choice(["lin", "lin", "nonlin_grad", "nonlin"])
+    sc = {"iface": "problem", "prior": prior, "model": model, "n": r.randint(2, 5), "zseed": r.randrange(1, 10 ** 6),
+          "Ns": r.randint(10, 16), "Nb": r.choice([0, 0, None, 1, 2, 4]), "experimental": r.random() < 0.5}
+    return {"scenario": sc, "ops": []}
+
 # =========================================================================== engine
 
 class ChainEngine(EngineBase):
@@ -937,8 +1043,10 @@ class ChainEngine(EngineBase):
             return gen_exp_case(r, tier)
         if x < 0.80:
             return gen_legacy_case(r, tier)
-        if x < 0.92:
+        if x < 0.90:
             return gen_hgibbs_case(r, tier)
+        if x < 0.95:
+            return gen_problem_case(r, tier)
         return gen_lgibbs_case(r, tier)
 
     def run(self, case, ctx):
@@ -946,7 +1054,7 @@ class ChainEngine(EngineBase):
         sim.install()
         try:
             iface = case["scenario"].get("iface", "exp")
-            runner_cls = {"exp": ExpRun, "legacy": LegacyRun, "hgibbs": HGibbsRun, "lgibbs": LGibbsRun}[iface]
+            runner_cls = {"exp": ExpRun, "legacy": LegacyRun, "hgibbs": HGibbsRun, "lgibbs": LGibbsRun, "problem": ProblemRun}[iface]
             if case.get("enumerate"):
                 # complete fault enumeration inside the scenario: every checkpoint position 0..T x both restart modes
                 T = int(case["enumerate"])
